@@ -176,7 +176,14 @@ func Not(a Object) (Object, error) {
 // fnObj must be a callable type such as *py.Method or *py.Function
 //
 // The result is returned
-func Call(fn Object, args Tuple, kwargs StringDict) (Object, error) {
+func Call(fn Object, args Tuple, kwargs StringDict) (res Object, err error) {
+	// A panic in the callee (eg a bug in a builtin) must not take
+	// the embedding process down - it becomes a python exception
+	defer func() {
+		if r := recover(); r != nil {
+			res, err = nil, RecoverToError(r)
+		}
+	}()
 	if I, ok := fn.(I__call__); ok {
 		return I.M__call__(args, kwargs)
 	}
